@@ -35,18 +35,37 @@ pub fn c13(v: &View) -> Vec<Violation> {
         };
         failed.push(F { o, reason, matched: false });
     }
+    let label_ok = |how: How, op: &str| match how {
+        How::Tell | How::TellT(_) => op == "tell",
+        How::Ask | How::AskT(_) | How::AskJoin => op == "ask",
+        How::BTell(_) | How::DepTell(_) => op == "tell" || op == "blocking_tell",
+        How::BAsk(_) | How::DepAsk(_) => op == "ask" || op == "blocking_ask",
+    };
     for (d, actor_type, msg_type, reason, op, actor_id) in &v.dead_letters {
+        // points-to-intervals matching, earliest deadline first; operations whose label fits
+        // are preferred so that concurrent failures of different kinds are not crossed
         let mut best: Option<usize> = None;
-        for (i, f) in failed.iter().enumerate() {
-            if f.matched {
-                continue;
-            }
-            let (_, _, ty) = f.o.send().unwrap();
-            let av = &v.actors[f.o.a];
-            if f.o.b_seq < *d && f.o.e_seq.map(|e| e > *d).unwrap_or(false) && av.id == *actor_id && type_name_of(ty) == msg_type && f.reason == reason {
-                if best.map(|b| failed[b].o.e_seq > f.o.e_seq).unwrap_or(true) {
-                    best = Some(i);
+        for want_label in [true, false] {
+            for (i, f) in failed.iter().enumerate() {
+                if f.matched {
+                    continue;
                 }
+                let (how, _, ty) = f.o.send().unwrap();
+                let av = &v.actors[f.o.a];
+                if f.o.b_seq < *d
+                    && f.o.e_seq.map(|e| e > *d).unwrap_or(false)
+                    && av.id == *actor_id
+                    && type_name_of(ty) == msg_type
+                    && f.reason == reason
+                    && (!want_label || label_ok(how, op))
+                {
+                    if best.map(|b| failed[b].o.e_seq > f.o.e_seq).unwrap_or(true) {
+                        best = Some(i);
+                    }
+                }
+            }
+            if best.is_some() {
+                break;
             }
         }
         match best {
@@ -58,12 +77,7 @@ pub fn c13(v: &View) -> Vec<Violation> {
             Some(i) => {
                 failed[i].matched = true;
                 let (how, mid, _) = failed[i].o.send().unwrap();
-                let ok_label = match how {
-                    How::Tell | How::TellT(_) => op == "tell",
-                    How::Ask | How::AskT(_) | How::AskJoin => op == "ask",
-                    How::BTell(_) | How::DepTell(_) => op == "tell" || op == "blocking_tell",
-                    How::BAsk(_) | How::DepAsk(_) => op == "ask" || op == "blocking_ask",
-                };
+                let ok_label = label_ok(how, op);
                 if !ok_label {
                     out.push(viol("C13", "wrong-operation-label", format!("{how:?} of message {mid} failed ({reason}); its dead letter names operation '{op}'")));
                 }
@@ -549,6 +563,92 @@ pub fn canonical(v: &View, with_logs: bool) -> Vec<String> {
             other => format!("{other:?}"),
         };
         out.push(format!("t={} {}", e.t, line));
+    }
+    out
+}
+
+/// Per-task projection of the observable trace (C18): what each client saw (operations, results,
+/// virtual times), what each actor did (hook sequence with times, state, final result) - without
+/// the relative order of different tasks inside one virtual instant, which is not an observable of
+/// the API and would make the comparison sensitive to harmless scheduling hops.
+pub fn canonical_projected(v: &View) -> Vec<String> {
+    let idmap: HashMap<u64, usize> = v.actors.iter().enumerate().filter(|(_, a)| a.spawned).map(|(i, a)| (a.id, i)).collect();
+    let fix_ids = |msg: &str| {
+        let mut m = msg.lines().next().unwrap_or("").to_string();
+        for (id, i) in &idmap {
+            m = m.replace(&format!("(#{id})"), &format!("(@{i})"));
+        }
+        m
+    };
+    let mut groups: std::collections::BTreeMap<String, Vec<String>> = Default::default();
+    let mut op_owner: HashMap<u64, String> = HashMap::new();
+    let mut tags: HashMap<u64, usize> = HashMap::new();
+    let mut tag = |t: u64, tags: &mut HashMap<u64, usize>, a: usize| -> String {
+        if t == 0 {
+            return "0".into();
+        }
+        let n = tags.len() + 1;
+        let k = *tags.entry(t).or_insert(n);
+        let _ = k;
+        // error tags are unique per hook invocation; their identity is (actor, position)
+        format!("tag@{a}")
+    };
+    for e in v.evs {
+        let (key, line) = match &e.k {
+            K::OpBegin { kind: OpKind::Metrics, .. } => continue,
+            K::OpBegin { op, src, hook, a, kind, slot, .. } => {
+                let key = format!("{src:?}");
+                op_owner.insert(*op, key.clone());
+                (key, format!("begin hook={hook:?} a={a} kind={kind:?} slot={slot}"))
+            }
+            K::OpEnd { op, res } => {
+                let Some(key) = op_owner.get(op).cloned() else { continue };
+                let r = match res {
+                    Res::Rep { id, err, .. } => format!("Rep id={id} err={err}"),
+                    Res::Panicked(m) => format!("Panicked({})", fix_ids(m)),
+                    other => format!("{other:?}"),
+                };
+                (key, format!("end res={r}"))
+            }
+            K::Obs { op, id, alive, upgradable, .. } => {
+                let Some(key) = op_owner.get(op).cloned() else { continue };
+                (key, format!("obs actor={:?} alive={alive} up={upgradable:?}", idmap.get(id)))
+            }
+            K::StartBegin { a } => (format!("Actor({a})h"), "StartBegin".into()),
+            K::StartEnd { a, out, tag: t } => (format!("Actor({a})h"), format!("StartEnd out={out:?} tag={}", tag(*t, &mut tags, *a))),
+            K::HBegin { a, mid, ty } => (format!("Actor({a})h"), format!("HBegin mid={mid} ty={ty:?}")),
+            K::HEnd { a, mid, out, .. } => (format!("Actor({a})h"), format!("HEnd mid={mid} out={out:?}")),
+            K::TellResult { a, mid, err } => (format!("Actor({a})h"), format!("TellResult mid={mid} err={err}")),
+            K::RunBegin { a, inv } => (format!("Actor({a})h"), format!("RunBegin inv={inv}")),
+            K::RunStep { a, inv, step } => (format!("Actor({a})h"), format!("RunStep inv={inv} step={step}")),
+            K::RunEnd { a, inv, out, tag: t } => (format!("Actor({a})h"), format!("RunEnd inv={inv} out={out:?} tag={}", tag(*t, &mut tags, *a))),
+            K::StopBegin { a, killed } => (format!("Actor({a})h"), format!("StopBegin killed={killed}")),
+            K::StopEnd { a, out, tag: t } => (format!("Actor({a})h"), format!("StopEnd out={out:?} tag={}", tag(*t, &mut tags, *a))),
+            K::Joined { a, res, state } => {
+                let r = match res {
+                    JoinRes::Panic(m) => format!("Panic({})", fix_ids(m)),
+                    JoinRes::Failed { phase, killed, has_actor, err_tag, err_hook } => {
+                        format!("Failed phase={phase} killed={killed} has_actor={has_actor} err={} hook={err_hook}", tag(*err_tag, &mut tags, *a))
+                    }
+                    other => format!("{other:?}"),
+                };
+                (format!("Actor({a})h"), format!("Joined res={r} state={state:?}"))
+            }
+            K::JobBegin { mid } => (format!("Job({mid})"), "begin".into()),
+            K::JobEnd { mid } => (format!("Job({mid})"), "end".into()),
+            K::ClientDone { c } => (format!("Client({c})"), "done".into()),
+            K::ClientPanicked { c, msg } => (format!("Client({c})"), format!("panicked {}", fix_ids(msg))),
+            K::Anomaly { prop, what } => ("Anomaly".into(), format!("{prop} {what}")),
+            K::Phase(p) => ("Phase".into(), format!("{p}")),
+            _ => continue,
+        };
+        groups.entry(key).or_default().push(format!("t={} {}", e.t, line));
+    }
+    let mut out = vec![];
+    for (k, ls) in groups {
+        for l in ls {
+            out.push(format!("[{k}] {l}"));
+        }
     }
     out
 }
